@@ -19,20 +19,6 @@ Proof. apply list_eqb_refl, kv_eqb_refl. Qed.
 Lemma pairs_eqb_refl (l : rel) : list_eqb pair_eq l l = true.
 Proof. apply list_eqb_refl, pair_eq_refl. Qed.
 
-Lemma dict_eqb_same_set (a b : dict) : NoDup (map fst a) -> NoDup (map fst b) ->
-  dict_eqb_unordered a b = same_set a b.
-Proof.
-  intros A B. apply bool_eq_iff. rewrite same_set_true. split.
-  - unfold dict_eqb_unordered. rewrite andb_true_iff, Nat.eqb_eq, forallb_forall. intros [L H].
-    assert (I : incl a b).
-    { intros [k v] Hin. apply H in Hin. simpl in Hin. destruct (d_get b k) eqn:E; [|discriminate].
-      apply Nat.eqb_eq in Hin. subst. now apply get_In. }
-    intro p. split; [apply I|].
-    apply NoDup_length_incl; trivial; [now apply NoDup_pairs_of_keys|].
-    unfold rel, pair in *. nlia.
-  - intro E. apply dict_eqb_perm; trivial. now apply EqSet_perm.
-Qed.
-
 Lemma r_map_update_spec (kvs : list pair) (r : rel) : NoDup (map fst r) ->
   NoDup (map fst (r_map_update r kvs)) /\
   forall k, d_get (r_map_update r kvs) k = match d_get (rev kvs) k with Some v => Some v | None => d_get r k end.
